@@ -158,6 +158,12 @@ def check_sample(case, part):
             pars["e"] = xu.with_unit(pm.Truncated("e", pm.Beta.dist(0.867, 3.03), lower=None, upper=0.6), u.one)
         if custom in ("s_mixture",):
             kw["s"] = xu.with_unit(pm.Mixture("s", w=[0.3, 0.7], comp_dists=[pm.LogNormal.dist(np.log(0.1), 0.3), pm.LogNormal.dist(np.log(2.0), 0.5)]), u.km / u.s)
+        if custom in ("P_det",):
+            # the period declared through a deterministic transform of a variable that is not one of The Joker's parameters
+            import pytensor.tensor as ptt
+
+            lnP_ = pm.Uniform("lnP", np.log(Pmin), np.log(Pmax))
+            pars["P"] = xu.with_unit(pm.Deterministic("P", ptt.exp(lnP_)), u.day)
         if custom in ("M0_uniform",):
             pars["M0"] = xu.with_unit(pm.Uniform("M0", 0.0, 2 * np.pi), u.rad)
         if custom in ("e_given_P", "e_given_P_rev"):
@@ -269,7 +275,7 @@ def build(quick, seed):
                                              generate_linear=gl, P_unit=Pu, size=16, seeds=[0, 1] if quick else [0, 1, 2, 3]))
     samp.append(dict(kind="sample", P_lim=[0.1, 1e7], sigma_K0=30.0, P0_days=365.25, sigma_v=[100.0, 0.5], poly_trend=1, generate_linear=True,
                      P_unit="day", size=64, seeds=[0, 1, 2, 3], probe=True))
-    for custom in ("s_lognormal", "omega_vonmises", "both", "M0_uniform", "e_given_P", "e_given_P_rev", "e_truncated", "s_mixture"):
+    for custom in ("s_lognormal", "omega_vonmises", "both", "M0_uniform", "e_given_P", "e_given_P_rev", "e_truncated", "s_mixture", "P_det"):
         for gl in (False, True):
             samp.append(dict(kind="sample", P_lim=[1.0, 1000.0], sigma_K0=30.0, P0_days=365.25, sigma_v=[100.0, 0.5], poly_trend=1, generate_linear=gl,
                              P_unit="day", size=16, seeds=[0, 1], custom=custom))
